@@ -22,6 +22,7 @@ class FS(object):
         self.dirs = set(['/'])
         self.crash_at = None     # k: number of characters of the next flush that reach the disk
         self.t = 1000000
+        self.tick = 1          # what one call of time.time() advances the clock by (0.25: several files per second)
 
     def norm(self, p):
         while '//' in p:
@@ -182,7 +183,7 @@ class FakeTime(object):
         self.fs = fs
 
     def time(self):
-        self.fs.t += 1
+        self.fs.t += self.fs.tick
         return float(self.fs.t)
 
 
